@@ -467,7 +467,10 @@ Lemma close_table_cell_good2 v e ks s : Inv s -> good2 Inv (close_table_cell v e
 Proof.
   intro H. unfold close_table_cell.
   apply good2_bind with (Q := any); [ext2|]. intros pr _. cbv zeta.
+  (* the two early returns of the repaired _close_table_cell *)
+  destruct (c_tree s) as [|tb0 root0] eqn:Eroot0; [apply good2_ok; exact H|]. rewrite <- Eroot0.
   apply good2_bind with (Q := any); [ext2|]. intros rows0 _.
+  destruct rows0 as [|rb0 rows1] eqn:Erows1; [apply good2_ok; exact H|]. rewrite <- Erows1.
   apply good2_bind with (Q := any); [ext2|]. intros _ _.
   apply good2_bind with (Q := Inv).
   { match goal with |- good2 Inv (if ?c then _ else _) => destruct c end;
@@ -506,10 +509,10 @@ Proof.
   apply good2_bind with (Q := fun root' => Inv (set_tree root' sa)).
   2:{ intros root' Hr. apply IH. exact Hr. }
   apply upd_row_good2; [exact Ia|exact Da| | |].
-  - intro cs. destruct (env_dup v); [|exact I]. destruct cs; simpl; [discriminate|exact I].
+  - intro cs. destruct (env_dup v); [|exact I]. destruct cs; simpl; exact I.
   - intro cs. destruct (env_dup v); [|apply nme_ok]. destruct cs; nme_tac.
   - intros cs cs' Hc Hf. destruct (env_dup v).
-    + destruct cs as [|c r]; [discriminate Hf|]. injection Hf as <-.
+    + destruct cs as [|c r]; [injection Hf as <-; reflexivity|]. injection Hf as <-.
       cbn [forallb] in Hc |- *. rewrite copy_node_shape.
       apply andb_true_iff in Hc. destruct Hc as [Hc1 Hc2]. rewrite Hc1, Hc2. reflexivity.
     + injection Hf as <-. cbn [forallb]. rewrite Hc. reflexivity.
